@@ -408,6 +408,41 @@ pub fn dispatch(m: &mut Machine, name: &str, args: &[&str]) -> Option<R> {
             let d = arg_bytes(args[1])?;
             Ok(obs_bytes(&oneshot(args[0], &d)?))
         })(),
+        // hconsts <variant>: the OUTPUT_BITS and BLOCK_BYTES constants of the algorithm marker type
+        "hconsts" => (|| {
+            need(args, 1)?;
+            use cryptoxide::hashing::*;
+            macro_rules! c {
+                ($t:ty) => {
+                    format!("{}.{}", <$t>::OUTPUT_BITS, <$t>::BLOCK_BYTES)
+                };
+            }
+            Ok(match args[0] {
+                "sha1" => c!(sha1::Sha1),
+                "sha224" => c!(sha2::Sha224),
+                "sha256" => c!(sha2::Sha256),
+                "sha384" => c!(sha2::Sha384),
+                "sha512" => c!(sha2::Sha512),
+                "sha512_224" => c!(sha2::Sha512Trunc224),
+                "sha512_256" => c!(sha2::Sha512Trunc256),
+                "sha3_224" => c!(sha3::Sha3_224),
+                "sha3_256" => c!(sha3::Sha3_256),
+                "sha3_384" => c!(sha3::Sha3_384),
+                "sha3_512" => c!(sha3::Sha3_512),
+                "keccak224" => c!(keccak::Keccak224),
+                "keccak256" => c!(keccak::Keccak256),
+                "keccak384" => c!(keccak::Keccak384),
+                "keccak512" => c!(keccak::Keccak512),
+                "ripemd160" => c!(ripemd160::Ripemd160),
+                "blake2b_224" => c!(blake2b::Blake2b<224>),
+                "blake2b_256" => c!(blake2b::Blake2b<256>),
+                "blake2b_384" => c!(blake2b::Blake2b<384>),
+                "blake2b_512" => c!(blake2b::Blake2b<512>),
+                "blake2s_224" => c!(blake2s::Blake2s<224>),
+                "blake2s_256" => c!(blake2s::Blake2s<256>),
+                v => return Err(format!("unknown-variant:{}", v)),
+            })
+        })(),
         // hnew <slot> <kind> [kind args]
         "hnew" => (|| {
             need(args, 2)?;
